@@ -33,11 +33,12 @@ Proof. exact table_domains. Qed.
    FAM[off]:q-all / FAM[off]:q-any in the trigger expression evaluates, under
    every assignment v of truth values to member outputs, to the AND / OR over
    the members of "member has o".
-   With today's table this holds for 13 of the 14 qualifiers; the excluded
-   entry is refuted below (c15_submit_fail_any_refuted). *)
+   This holds for all 14 qualifiers.  (Until /repo commit 399a6c1 the entry
+   submit-fail-any mapped to member:submitted; the theorem then carried the
+   exclusion `(q, all) <> ("submit-fail", false)` and a refutation theorem for
+   that entry - finding c15:lhs-submit-fail-any-expands-to-submitted, fixed.) *)
 Theorem c15_family_lhs : forall fm F ms off q o all opt v,
   In (q, o) alt_qualifiers ->
-  (q, all) <> ("submit-fail"%string, false) ->
   fam_members fm F = Some ms -> ms <> [] ->
   exists toks atoms,
     expand_left fm [TN (mkNode F off (Some (fam_qual q all)) opt)] = Ok (toks, atoms)
@@ -45,8 +46,8 @@ Theorem c15_family_lhs : forall fm F ms off q o all opt v,
        = Some (if all then forallb (member_holds v off o) ms
                else existsb (member_holds v off o) ms).
 Proof.
-  intros fm F ms off q o all opt v Hq Hne. apply family_lhs; [exact Hq|].
-  exact (lhs_entries_ok q o all Hq Hne).
+  intros fm F ms off q o all opt v Hq. apply family_lhs; [exact Hq|].
+  exact (lhs_entries_ok q o all Hq).
 Qed.
 
 (* LEFT SIDE, any expression: family nodes (nested/overlapping families are just
@@ -63,21 +64,11 @@ Theorem c15_left_expression : forall fm e v,
     /\ eval_toks v toks = Some (eval_e (doc_node fm v) e).
 Proof. exact left_expression_meaning. Qed.
 
-(* which entries satisfy [fam_entry_ok] (hence [left_node_ok]) today *)
+(* every documented entry satisfies [fam_entry_ok] (hence [left_node_ok]) *)
 Theorem c15_lhs_entries_ok : forall q o all,
-  In (q, o) alt_qualifiers -> (q, all) <> ("submit-fail"%string, false) ->
+  In (q, o) alt_qualifiers ->
   fam_entry_ok (fam_qual q all) = true.
 Proof. exact lhs_entries_ok. Qed.
-
-(* The defect (finding): a graph whose left side is FAM:submit-fail-any? is
-   accepted and its stored expression does NOT denote "some member
-   submit-failed" (it is the OR of member:submitted). *)
-Theorem c15_submit_fail_any_refuted :
-  exists fm e v toks atoms,
-    wf_lvl 0 e = true /\ forallb (node_accepted fm) (nodes_e e) = true
-    /\ expand_left fm (print_e e) = Ok (toks, atoms)
-    /\ eval_toks v toks <> Some (eval_e (doc_node fm v) e).
-Proof. exact submit_fail_any_wrong. Qed.
 
 (* RIGHT SIDE.  A family node FAM:q-all / FAM:q-any (optionally "!FAM...",
    optionally "?") on the right of a trigger [expr]: whenever the parser accepts
